@@ -7,6 +7,11 @@ HOOK_COMMITS = subprocess.run(
     capture_output=True, text=True).stdout.strip().splitlines()
 
 CHECKS = {
+ "C15": dict(
+   text="Seeded simulation of the real discovery aggregation (discovery.Run, State persistence, BuildTree with a small convergence threshold): one generated access-log stream is delivered as a single batch and again under seeded batch splits (incl. empty and singleton batches), half of them with restarts between batches after which only the state file survives (new State from the file, new URL tree). Oracles: R1 conservation (endpoint counts = non-internal records = status sums, also per consumer), R2 batch invariance against the single-batch result (keys, counts, status maps, min/max exactly, averages within 1e-3), R3 a 30-line reference aggregator keyed by the final tree's normalisation, R4 totals and per-method totals preserved across restarts. Sampling, not proof.",
+   design_ref="DESIGN.md section 4 C15",
+   note="Trusted: the reference aggregator; float tolerance 1e-3; the schedule dimension is thin (batch boundaries and restarts), most of the power is the reference model; torn/failed state-file writes are not injected.",
+   technique="deterministic simulation: seeded batch-split and restart histories (only durable state survives) against a reference aggregator and the single-batch run"),
  "C18": dict(
    text="Two monitors over the real engine inside the simulator. (i) Data races: the harness is built with -race and the Go race detector is the invariant monitor; 2-5 goroutines drive overlapping transactions through shared flows and quotas of the real HandlingDataManager together with a metrics read, a proxy-error report and a PUT /configuration reload, and, in policy mode, transaction lookups with policy swaps, a fail-safe revert and the vacuum goroutines; interleavings come from fake-time delays at every instrumented lock site, a pure function of seed and call site (the token scheduler is not used here: its hand-off would add happens-before edges and hide races). Every report with an engine frame is a violation, identified by its pair of top engine frames. (ii) Serial equivalence: 2-3 transactions overlap under the token scheduler with the clock frozen; their outcome vector must equal that of one of the N! serial orders on fresh engines. Sampling, not proof.",
    design_ref="DESIGN.md section 4 C18",
